@@ -267,6 +267,13 @@ func cmdC18(args []string) {
 	}
 	shapes := []string{"bytes", "elements", "empties", "lines", "emptylines", "ows", "allowed-then-junk",
 		"allowed", "allowed-sp", "allowed-tab", "allowed-both", "allowed-lines", "allowed-empties", "allowed-upper", "allowed-title", "allowed-pairs", "allowed-deep"}
+	// the deep allowed origin again with labels of other KINDS (work that depends on what a label looks like: A-labels of
+	// internationalized names, digits, inner hyphens, the longest label)
+	deepLabels := map[string]string{"allowed-deep": "a", "allowed-deep-xn": "xn--9ca", "allowed-deep-xn2": "xn--bcher-kva", "allowed-deep-digit": "0",
+		"allowed-deep-hyphen": "a-b", "allowed-deep-63": strings.Repeat("abcdefg", 9)}
+	for _, sh := range []string{"allowed-deep-xn", "allowed-deep-xn2", "allowed-deep-digit", "allowed-deep-hyphen", "allowed-deep-63"} {
+		shapes = append(shapes, sh)
+	}
 	// elements of EVERY length 1..40 (work that depends on an element's exact length - a canonical header name has 13, 14, ...
 	// bytes), lower-case, not canonical, distinct
 	for L := 1; L <= 40; L++ {
@@ -284,7 +291,7 @@ func cmdC18(args []string) {
 			m.SetDebug(dbg)
 			for _, field := range []string{hOrigin, hACRM, hACRH} {
 				for _, shape := range shapes {
-					if shape == "allowed-deep" {
+					if deepLabels[shape] != "" {
 						if field != hOrigin || !deepKind(kc.name) {
 							continue
 						}
@@ -303,15 +310,16 @@ func cmdC18(args []string) {
 								hd[hACRM] = []string{"GET"} // safelisted: the header step is reached
 							}
 							var v []string
-							if shape == "allowed-deep" {
-								// an ALLOWED origin n labels below example.com (n <= 120: the host stays under 253 bytes)
-								if n > 120 {
+							if lab := deepLabels[shape]; lab != "" {
+								// an ALLOWED origin n labels below example.com (as many as keep the host under 253 bytes: 120 one-byte labels)
+								most := (253 - len("example.com")) / (len(lab) + 1)
+								if n > most {
 									if n != 1000 {
 										continue
 									}
-									n = 120
+									n = most
 								}
-								v = []string{"https://" + strings.Repeat("a.", n) + "example.com"}
+								v = []string{"https://" + strings.Repeat(lab+".", n) + "example.com"}
 							} else if strings.HasPrefix(shape, "allowed") && shape != "allowed-then-junk" {
 								if kc.many == nil || n > len(kc.many) {
 									continue
